@@ -121,12 +121,14 @@ def showEst (r : List CF × CF) : String := s!"ok {showCList r.1} {showCList [r.
 
 /-- the first `order+1` autocorrelation lags of `x` (what `utils.autocorr(x)[:order+1]` holds) -/
 def acLags (x : List CF) (order : Nat) : List CF :=
-  (List.range (order + 1)).map fun k => autocorrDirect (fnOf x) x.length k
+  let a := x.toArray                       -- O(1) indexing for the long signals
+  let f : Nat → CF := fun i => a.getD i ⟨0.0, 0.0⟩
+  (List.range (order + 1)).map fun k => autocorrDirect f x.length k
 
 def handle (args : List String) : String :=
   match args with
   | ["autocorr", nl, xs] => match nl.toNat?, parseCList? xs with
-    | some nl, some x => "ok " ++ showCList ((List.range nl).map fun k => autocorrDirect (fnOf x) x.length k)
+    | some nl, some x => "ok " ++ showCList ((acLags x (nl - 1)).take nl)
     | _, _ => "bad-op"
   | ["ld", o, rs] => match o.toNat?, parseCList? rs with
     | some o, some r => if o = 0 ∨ r.length < o + 1 then "err IndexError" else showEst (arLD (fnOf r) o)
